@@ -20,6 +20,7 @@ OPERAND_SETS = [
     ['f(1)(2)', 'o.k.j', 'a[0][1]', 'x', '(a)'],
     ['-7->type()', '-2[0]', '-3.k', '-5(1)', '-1[0:1]'],
     ['fn () { return 1; }()', 'fn (v) { return v; }', 'fn () { return 2; }->type()', '[fn () { return 3; }][0]()', '{"k": 1}.k'],
+    ['a', '5', '3', 'b', '2'],          # adjacent literals after a name: a rewrite of literal sub-terms must not regroup
 ]
 
 def s_of(n): return bytes(b.v for b in n.d['b']).decode('utf-8', 'replace')
@@ -78,7 +79,8 @@ def canon_ref(n, with_loc=True):
 
 def parse_real(M, text):
     """real ExprParser on text; returns ('ok', expr) | ('err',)"""
-    LN = [n for n in M.bodies if re.search(r'^lexer::<impl at src/lexer/mod.rs:\d+:1: \d+:\d+>::new$', n)][0]
+    from mirsym import core as _core
+    LN = _core.find_by_sig(M, *_core.LEXER_NEW_SIG)
     lx = M.call(LN, [Slice(models.elems(text), 0, len(text.encode()), True)])
     for pat, f in ms_patterns():
         if pat.pattern == r'^(Prog|Expr)Parser::parse$':
@@ -150,7 +152,7 @@ def split_ops(text):
 
 def seq_job(k, operands, laws, ops=None):
     ops = ops or OPS
-    name = 'ops-%d-%s' % (k, re.sub(r'\W+', '_', operands[0]))
+    name = 'ops-%d-%s-%s' % (k, re.sub(r'\W+', '_', operands[0]), re.sub(r'\W+', '_', operands[1])[:6])
     def path_fn(M):
         M.symvars = {}
         chosen = []
@@ -180,13 +182,13 @@ def seq_job(k, operands, laws, ops=None):
             for t2 in paren_variants(toks, skel):
                 obs['checks'] += 1
                 r2 = parse_real(M, t2)
-                if r2[0] == 'err' or canon_real(r2[1], False) != base: obs['viol'] = 'redundant parentheses change the tree: %r' % t2; return obs
+                if r2[0] == 'err' or canon_real(r2[1], False) != base: obs['viol'] = 'redundant parentheses change the tree: %r' % t2; obs['variant'] = t2; return obs
             obs['checks'] += 1
             try: t3 = unparse_min(base)
             except Unsupported: t3 = None           # (operands the printer does not cover: function / object / string literals)
             if t3 is not None:
                 r3 = parse_real(M, t3)
-                if r3[0] == 'err' or canon_real(r3[1], False) != base: obs['viol'] = 'minimal print-out %r does not parse back to the same tree' % t3; return obs
+                if r3[0] == 'err' or canon_real(r3[1], False) != base: obs['viol'] = 'minimal print-out %r does not parse back to the same tree' % t3; obs['variant'] = t3; return obs
         return obs
     def post(rows, res, binary, wd):
         for r in rows:
@@ -213,6 +215,21 @@ def seq_job(k, operands, laws, ops=None):
                     res['violations'].append({'aspect': 'grouping', 'role': 'acceptance', 'what': '%s: %s | native: %r' % (o['text'], o['viol'], (nat0[0], (nat0[1] + nat0[2])[:120])), 'script': script0, 'ext': 'sd'})
                 else: res['inconclusive'].append('%s: %s (not reproduced natively)' % (o['text'], o['viol']))
                 continue
+            if o['viol'] and o.get('variant'):
+                # the two spellings must be the same program: run both natively under several bindings of the names; any difference
+                # (acceptance, output, exit status, message) confirms the violation
+                import re as _re
+                heads = ['a := 7\nb := 3\nc := 2\n', 'a := [7, [1]]\nb := 3\nc := 2\nx := 5\no := {"k": {"j": 4}}\nfn f(v) {\n    return fn (w) {\n        return v + w\n    }\n}\nfn g(p, q) {\n    return p + q\n}\n', 'a := null\nb := null\nc := null\n']
+                confirmed = None
+                for hd in heads:
+                    s1 = 'print(12345)\n' + hd + 'print(%s)\n' % o['text']; s2 = 'print(12345)\n' + hd + 'print(%s)\n' % o['variant']
+                    n1 = F.native_run(binary, s1, wd); n2 = F.native_run(binary, s2, wd); res['replayed'] += 1
+                    norm = lambda n: (n[0], n[1], _re.sub(rb':\d+:\d+:', b':L:C:', n[2]))
+                    if norm(n1) != norm(n2): confirmed = (s2, n1, n2); break
+                if confirmed:
+                    res['replay_ok'] += 1
+                    res['violations'].append({'aspect': 'grouping', 'role': 'parentheses', 'what': '%s: %s | native: %r without the parentheses, %r with them' % (o['text'], o['viol'], (confirmed[1][0], (confirmed[1][1] + confirmed[1][2])[:80]), (confirmed[2][0], (confirmed[2][1] + confirmed[2][2])[:80])), 'script': confirmed[0], 'ext': 'sd'})
+                    continue
             if o['viol']:
                 # native confirmation: evaluate the expression with integer-valued names so that a different grouping shows
                 script = 'a := 7\nb := 3\nc := 2\nprint(%s)\n' % o['text']
@@ -242,7 +259,7 @@ def run(tier, seed):
     c.functions |= {'Lexer::*', 'lalrpop_util driver (model)', '__parse__Expr::__action', '__parse__Expr::__goto', '__parse__Expr::__reduce*', '__parse__Expr::__token_to_integer', '__parse__Expr::__token_to_symbol', 'parser::__action* (grammar actions)', 'ExprParser::parse'}
     jobs = []
     if tier == 'quick':
-        jobs += [seq_job(1, s, True) for s in OPERAND_SETS] + [seq_job(2, s, True) for s in OPERAND_SETS[:2]] + [seq_job(2, s, False, ['+', '*', '==', '&&', '..', '-']) for s in OPERAND_SETS[4:]] + [seq_job(3, OPERAND_SETS[0], False, ['+', '*', '==', '<', '&&', '||', '..', '-'])]
+        jobs += [seq_job(1, s, True) for s in OPERAND_SETS[:6]] + [seq_job(2, s, True) for s in OPERAND_SETS[:2]] + [seq_job(2, s, False, ['+', '*', '==', '&&', '..', '-']) for s in OPERAND_SETS[4:]] + [seq_job(3, OPERAND_SETS[0], False, ['+', '*', '==', '<', '&&', '||', '..', '-']), seq_job(2, OPERAND_SETS[6], True, ['+', '-', '*', '/', '%', '==', '<', '..']), seq_job(3, OPERAND_SETS[6], False, ['+', '-', '*', '/'])]
     else:
         sub8 = ['+', '*', '==', '<', '&&', '||', '..', '-']
         jobs += [seq_job(1, s, True) for s in OPERAND_SETS] + [seq_job(2, s, True) for s in OPERAND_SETS] + [seq_job(3, OPERAND_SETS[0], True), seq_job(3, OPERAND_SETS[1], False, sub8 + ['%', '===', '>=', '/']), seq_job(4, OPERAND_SETS[0], False, sub8)]
